@@ -7,6 +7,7 @@ CONSTANTS
   Ambients = {"A", "B", "none"}
   Threads = {"main", "other"}
   Resolution = "captured"
+  UnwindDrops = FALSE
 SPECIFICATION TmSpec
 INVARIANT TmTypeOK
 INVARIANT TmInv
